@@ -13,6 +13,10 @@ use std::sync::Arc;
 
 const START_REFERENCE_ID: u32 = 1;
 
+/// Valid reference IDs are 1..=u32::MAX, so 0 is free to mean "there is no next reference ID": the
+/// range has been used up.
+const EXHAUSTED_REFERENCE_ID: u32 = 0;
+
 /// Load the contents of the file at the given path.
 ///
 /// # Arguments
@@ -222,7 +226,12 @@ impl ReferenceProcessor<u32, (u32, usize), (u32, usize)> for NextReferenceIdProc
             return Some((START_REFERENCE_ID, missing_refs_result));
         }
 
-        Some((ref_id_result + 1, missing_refs_result))
+        Some((
+            ref_id_result
+                .checked_add(1)
+                .unwrap_or(EXHAUSTED_REFERENCE_ID),
+            missing_refs_result,
+        ))
     }
 }
 
@@ -454,7 +463,35 @@ impl ReferenceProcessor<Arc<AtomicU32>, InsertReferencesResult, InsertReferences
 
             unwritten_content_start_pos += insert_pos - unwritten_content_start_pos;
 
-            let reference_id = next_reference_id.fetch_add(1, std::sync::atomic::Ordering::Relaxed);
+            let reference_id = match next_reference_id.fetch_update(
+                std::sync::atomic::Ordering::Relaxed,
+                std::sync::atomic::Ordering::Relaxed,
+                |next| {
+                    if next == EXHAUSTED_REFERENCE_ID
+                    {
+                        None
+                    }
+                    else
+                    {
+                        Some(next.checked_add(1).unwrap_or(EXHAUSTED_REFERENCE_ID))
+                    }
+                },
+            )
+            {
+                Ok(id) => id,
+                Err(_) =>
+                {
+                    task::spawn(async {
+                        error!("[ref: 37] No reference IDs left: the largest ID, 4294967295, is already in use");
+                    })
+                    .await;
+
+                    return Some(InsertReferencesResult {
+                        failure: true,
+                        num_inserted_references: 0,
+                    });
+                },
+            };
             let insertable_ref_id_string = entry.insertable_reference_string(reference_id);
 
             match scratch_file
